@@ -104,6 +104,13 @@ class ParticleReleaser(Iterator[pd.DataFrame]):
             steps = np.array([timer.time2step(t) for t in self._df.index], dtype=int)
             self._df = self._df[steps > 0]
 
+        # Every row that releases particles in the simulation period must have a
+        # position (missing values are read as NaN)
+        releasing = self._df[self._df["mult"] > 0]
+        if releasing[["X", "Y"]].isna().any().any():
+            logger.critical("Particle release row without position")
+            raise SystemExit(3)
+
         # Avoid simulations without particles
         # Cold start and all particles released before start
         if len(self._df) == 0 and not warm_start_file:
@@ -270,11 +277,6 @@ class ParticleReleaser(Iterator[pd.DataFrame]):
             df["lon"] = X
             df["lat"] = Y
             df.rename(columns={"lon": "X", "lat": "Y"}, inplace=True)
-
-        # Every row must have a position (missing values are read as NaN)
-        if df[["X", "Y"]].isna().any().any():
-            logger.critical("Particle release row without position")
-            raise SystemExit(3)
 
         self._df = df
 
